@@ -9,6 +9,7 @@
 import PCV.Model.Wire
 import PCV.Model.DrvUtil
 import PCV.Model.PST13
+import PCV.Model.PST13LC
 namespace PCV
 namespace DrvC15
 open Driver
@@ -147,9 +148,157 @@ def handleC15 (r : Req) : R String := do
         [("b", vBool b)]
   | _ => .error "unknown-op"
 
+/-! ### `pst13.*`: labelled polynomials / commitments / combinations / query sets -/
+
+def asLabel (v : Val) : R PST.Label := asNats v
+def asLabels (v : Val) : R (List PST.Label) := do (← asList v).mapM asLabel
+def asLabelss (v : Val) : R (List (List PST.Label)) := do (← asList v).mapM asLabels
+def asOptNats (v : Val) : R (List (Option Nat)) := do (← asList v).mapM asOptNat
+def asOptFes (v : Val) : R (List (Option (Fp p))) := do (← asList v).mapM asOptFe
+def asNatss (v : Val) : R (List (List Nat)) := do (← asList v).mapM asNats
+
+/-- `labels polys pnvs bounds hbs`: the labelled polynomials -/
+def getLPolys (r : Req) : R (List (PST.LPoly (Fp p))) := do
+  let labels ← asLabels (← need r "labels")
+  let polys ← asPolys (p := p) (← need r "polys")
+  let nvs ← asNats (← need r "pnvs")
+  let bounds ← asOptNats (← need r "bounds")
+  let hbs ← asOptNats (← need r "hbs")
+  pure <| (labels.zip (polys.zip (nvs.zip (bounds.zip hbs)))).map
+    fun (l, (q, (n, (b, h)))) => ⟨l, q, n, b, h⟩
+
+/-- `rands rnvs`: the commitment states -/
+def getRands (r : Req) : R (List (PST.Rand (Fp p))) := do
+  let rs ← asPolys (p := p) (← need r "rands")
+  let nvs ← asNats (← need r "rnvs")
+  pure <| (rs.zip nvs).map fun (b, n) => ⟨b, n⟩
+
+/-- `clabels cs ss cbounds`: the labelled commitments -/
+def getLComms (r : Req) : R (List (PST.LComm (Fp p))) := do
+  let labels ← asLabels (← need r "clabels")
+  let cs ← asFes (p := p) (← need r "cs")
+  let ss ← asOptFes (p := p) (← need r "ss")
+  let bounds ← asOptNats (← need r "cbounds")
+  pure <| (labels.zip (cs.zip (ss.zip bounds))).map fun (l, (c, (s, b))) => ⟨l, ⟨c, s⟩, b⟩
+
+/-- `lclabels lccoeffs lcone lcterms` (as for `marlin.*`) -/
+def getLCs (r : Req) : R (List (LC.LinComb (Fp p))) := do
+  let labels ← asLabels (← need r "lclabels")
+  let coeffs ← asFess (p := p) (← need r "lccoeffs")
+  let ones ← asNatss (← need r "lcone")
+  let terms ← asLabelss (← need r "lcterms")
+  pure <| (labels.zip (coeffs.zip (ones.zip terms))).map fun (l, (cs, (os, ts))) =>
+    ⟨l, (cs.zip (os.zip ts)).map fun (c, (o, t)) =>
+      (c, if o != 0 then LC.LCTerm.one else LC.LCTerm.poly t)⟩
+
+/-- `qlabels qplabels qpoints`: the query set in its iteration order -/
+def getQueries (r : Req) : R (List (PST.Query (Fp p))) := do
+  let ql ← asLabels (← need r "qlabels")
+  let pl ← asLabels (← need r "qplabels")
+  let pts ← asFess (p := p) (← need r "qpoints")
+  pure (ql.zip (pl.zip pts))
+
+/-- `elabels epoints evals`: the evaluations map -/
+def getEvals (r : Req) : R (PST.Evals (Fp p)) := do
+  let el ← asLabels (← need r "elabels")
+  let pts ← asFess (p := p) (← need r "epoints")
+  let vs ← asFes (p := p) (← need r "evals")
+  pure <| (el.zip (pts.zip vs)).map fun (l, (z, v)) => ((l, z), v)
+
+def getProofs (r : Req) : R (List (PST.Proof (Fp p))) := do
+  let ws ← asFess (p := p) (← need r "ws")
+  let rvs ← asOptFes (p := p) (← need r "rvs")
+  pure (List.zipWith (fun w rv => ⟨w, rv⟩) ws rvs)
+
+def vProofs (πs : List (PST.Proof (Fp p))) : List (String × Val) :=
+  [("ws", vFes (πs.flatMap (·.w))), ("wlens", vNats (πs.map (·.w.length))),
+   ("rvs", .l (πs.map fun π => vOptFe π.rv))]
+
+/-- the outcome class of a model run as a label: `[]` = answered, else the bytes of the error
+name (for the cases whose property names the error) -/
+def kindReply {α : Type} (x : Except Err α) : String :=
+  match x with
+  | .ok _ => okReply [("kind", vNats [])]
+  | .error e => okReply [("kind", vNats (e.name.toList.map (·.toNat)))]
+
+def handlePST (r : Req) : R String := do
+  match ← keys (p := p) r with
+  | .error e => pure (errReply e)
+  | .ok (ck, vk) =>
+  match r.op with
+  | "pst13.open_combinations" | "pst13.open_combinations.kind" =>
+    let polys ← getLPolys (p := p) r
+    let rands ← getRands (p := p) r
+    let comms ← getLComms (p := p) r
+    let lcs ← getLCs (p := p) r
+    let qs ← getQueries (p := p) r
+    let ξs ← asFes (← need r "xis")
+    let out := PST.openCombinations ck polys rands comms lcs qs ξs
+    if r.op.endsWith ".kind" then pure (kindReply out) else
+    pure <| exceptReply out fun (πs, rest) =>
+      vProofs πs ++ [("used", .n (ξs.length - rest.length))]
+  | "pst13.batch_open" =>
+    let polys ← getLPolys (p := p) r
+    let rands ← getRands (p := p) r
+    let comms ← getLComms (p := p) r
+    let qs ← getQueries (p := p) r
+    let ξs ← asFes (← need r "xis")
+    pure <| exceptReply (PST.batchOpen ck (polys.zip (rands.zip comms)) qs ξs) fun (πs, rest) =>
+      vProofs πs ++ [("used", .n (ξs.length - rest.length))]
+  | "pst13.check_combinations" | "pst13.check_combinations.kind" =>
+    let comms ← getLComms (p := p) r
+    let lcs ← getLCs (p := p) r
+    let qs ← getQueries (p := p) r
+    let evals ← getEvals (p := p) r
+    let πs ← getProofs (p := p) r
+    let ξs ← asFes (← need r "xis")
+    let rs ← asFes (← need r "rs")
+    let out := PST.checkCombinations vk comms lcs qs evals πs ξs rs
+    if r.op.endsWith ".kind" then pure (kindReply out) else
+    pure <| match out, PST.checkCombinationsDefect vk comms lcs qs evals πs ξs rs with
+      | .ok b, .ok d => okReply [("b", vBool b), ("defect", vFe d)]
+      | .error e, _ => errReply e
+      | _, .error e => errReply e
+  | "pst13.batch_check" =>
+    let comms ← getLComms (p := p) r
+    let qs ← getQueries (p := p) r
+    let evals ← getEvals (p := p) r
+    let πs ← getProofs (p := p) r
+    let ξs ← asFes (← need r "xis")
+    let rs ← asFes (← need r "rs")
+    pure <| exceptReply (PST.batchCheckQ vk comms qs evals πs ξs rs) fun b => [("b", vBool b)]
+  | _ => .error "unknown-op"
+
+/-- `pst13.check_vk`: `MarlinPST13::check` under an explicitly given verifier key (`vg vgamma vh vbh
+nv`: the scalars of `g`, `gamma_g`, `h`, `beta_h`), so that single key elements can be replaced -/
+def handleVK (r : Req) : R String := do
+  let vk : PST.VK (Fp p) :=
+    { g := ← asFe (← need r "vg"), gammaG := ← asFe (← need r "vgamma"), h := ← asFe (← need r "vh"),
+      betaH := ← asFes (← need r "vbh"), numVars := ← asNat (← need r "nv"),
+      supportedDegree := 0, maxDegree := 0 }
+  let cs ← asFes (p := p) (← need r "cs")
+  let z ← asFes (← need r "z")
+  let vs ← asFes (← need r "vs")
+  let w ← asFes (← need r "w")
+  let rv ← asOptFe (← need r "rv")
+  let xis ← asFes (← need r "xis")
+  match r.op with
+  | "pst13.check_vk" =>
+    pure <| exceptReply (PST.check vk cs z vs ⟨w, rv⟩ xis) fun b =>
+      [("b", vBool b), ("defect", vFe (PST.defect vk cs z vs ⟨w, rv⟩ xis))]
+  | "pst13.batch_check_vk" =>
+    -- one point label: the same claim through `batch_check` (`rs`: the verifier's randomizers)
+    let rs ← asFes (← need r "rs")
+    pure <| exceptReply (PST.batchCheckGroups vk [(cs, vs)] [z] [⟨w, rv⟩] xis rs) fun b =>
+      [("b", vBool b)]
+  | _ => .error "unknown-op"
+
 /-- `none` = not an op of this module -/
 def handle (p : Nat) (r : Req) : Option (Except String String) :=
-  if r.op.startsWith "c15." then some (handleC15 (p := p) r) else none
+  if r.op.startsWith "c15." then some (handleC15 (p := p) r)
+  else if r.op == "pst13.check_vk" || r.op == "pst13.batch_check_vk" then some (handleVK (p := p) r)
+  else if r.op.startsWith "pst13." then some (handlePST (p := p) r)
+  else none
 
 end DrvC15
 end PCV
